@@ -590,6 +590,9 @@ func (f *fctx) applyContract(callee *ssa.Function, con *Contract, args []Term, p
 		if cc.Local {
 			continue
 		}
+		if cc.Float == "ideal" && !f.rootFctx().ideal && !con.Pure {
+			continue // a case proved over ideal reals is assumed only by callers that are themselves verified over ideal reals
+		}
 		cenvPre := f.contractEnv(cc, callee, args, nil, pre, pre)
 		var guards []Term
 		guards = append(guards, preAll)
